@@ -297,6 +297,19 @@ def real_scale_c06(ctx, traces, meta):
     for ln in (4093, 4094, 4095):
         rl = b"GET /" + b"a" * (ln - len(b"GET / HTTP/1.1")) + b" HTTP/1.1"
         shapes.append(("reqline=%d" % ln, rl + b"\r\nHost: h\r\n\r\nGET /2 HTTP/1.1\r\n\r\n"))
+    # chunk-size lines with extensions around / beyond limit_request_line and the read size
+    for n in (4000, 4090, 5000, 9000):
+        shapes.append(("chunkext=%d" % n,
+                       b"POST / HTTP/1.1\r\nTransfer-Encoding: chunked\r\n\r\n5;" + b"x" * n + b"\r\nhello\r\n0\r\n\r\n"
+                       b"GET /2 HTTP/1.1\r\n\r\n"))
+    # empty lines before a request line (RFC 9112 2.2), at the start of the connection and between requests
+    for name, data in (("lead-crlf", b"\r\nGET / HTTP/1.1\r\nHost: h\r\n\r\n"),
+                       ("lead-crlf2", b"\r\n\r\nGET / HTTP/1.1\r\nHost: h\r\n\r\n"),
+                       ("lead-lf", b"\nGET / HTTP/1.1\r\nHost: h\r\n\r\n"),
+                       ("mid-crlf", b"POST /1 HTTP/1.1\r\nContent-Length: 3\r\n\r\nabc\r\nGET /2 HTTP/1.1\r\n\r\n"),
+                       ("mid-crlf-nobody", b"GET /1 HTTP/1.1\r\n\r\n\r\nGET /2 HTTP/1.1\r\n\r\n"),
+                       ("mid-crlf-chunked", b"POST /1 HTTP/1.1\r\nTransfer-Encoding: chunked\r\n\r\n0\r\n\r\n\r\nGET /2 HTTP/1.1\r\n\r\n")):
+        shapes.append((name, data))
     # largest head within the default limits, then body bytes
     if not ctx.quick:
         line = b"X-H: " + b"v" * (8188 - 5)
@@ -311,6 +324,8 @@ def real_scale_c06(ctx, traces, meta):
                     segsets.append([d + off])
         for _ in range(5):
             segsets.append(rand_cuts(rng, len(data), 3))
+        if len(data) < 120:
+            segsets += [[i] for i in range(1, len(data))] + [list(range(1, len(data)))]
         if name.startswith("maxhead"):
             eoh = data.find(b"\r\n\r\n") + 4
             segsets = [[], [eoh], [eoh - 1], [eoh + 1], list(range(8192, len(data), 8192)),
